@@ -4,6 +4,8 @@ import (
 	"go/types"
 	"sort"
 	"strings"
+
+	"golang.org/x/tools/go/ssa"
 )
 
 // Renamed unexported identifiers.
@@ -243,3 +245,24 @@ func CanonFieldName(t types.Type, idx int) string {
 // CanonField maps the actual field name of canonical struct owner
 // ("fsutil.receiver") to the name the rules use.
 func CanonField(owner, field string) string { return canonFieldName(owner, field) }
+
+// ParamName is the name the rules use for parameter q: the name the parameter
+// at that position had on the reference tree when the function still has the
+// same number of parameters, otherwise its current name. (Renaming a parameter
+// changes nothing; the rules identify parameters by position.)
+func (p *Prog) ParamName(q *ssa.Parameter) string {
+	fn := q.Parent()
+	if fn == nil {
+		return q.Name()
+	}
+	ref, ok := refParams[p.FnName(fn)]
+	if !ok || len(ref) != len(fn.Params) {
+		return q.Name()
+	}
+	for i, x := range fn.Params {
+		if x == q {
+			return ref[i]
+		}
+	}
+	return q.Name()
+}
